@@ -145,13 +145,23 @@ Lemma apply_reset_spec x w :
   apply_reset x w = mkX (set_crow (set_dyn w []) SS_PENDING false (c_dc w)) None (x_outs x) (x_envc x) None.
 Proof. unfold apply_reset. rewrite reset_to_pending_spec. reflexivity. Qed.
 
+(* the translated _report_run: drains iff the tag is FAIL and keep_going is off *)
+Lemma report_drains_spec tag kg : report_drains_gen tag kg = (tag =? TAG_FAIL) && negb kg.
+Proof. unfold report_drains_gen. destruct ((tag =? 2) && negb kg) eqn:E; unfold TAG_FAIL; rewrite E; reflexivity. Qed.
+
+(* the translated _drain_for_unexpected_input_changes sets scheduler.draining (breaks when it only reports) *)
+Lemma drain_for_changes_spec : drain_for_changes_gen = true.
+Proof. reflexivity. Qed.
+
 Lemma finalize_failed_spec w t :
   c_state (finalize_failed w t) = SS_FAILED /\ c_deferred (finalize_failed w t) = false /\
   c_run (finalize_failed w t) = c_run w /\ files (finalize_failed w t) = files w /\
   disk (finalize_failed w t) = disk w /\ c_dyn (finalize_failed w t) = c_dyn w /\
   bk (finalize_failed w t) = bstep (bk w) (BStop (c_id w) t false) /\
   draining (finalize_failed w t) = draining w || negb (keep_going w).
-Proof. unfold finalize_failed. rewrite mark_completed_fail. cbn. repeat split; reflexivity. Qed.
+Proof.
+  unfold finalize_failed. rewrite mark_completed_fail, report_drains_spec. cbn. repeat split; reflexivity.
+Qed.
 
 Lemma rehash_failed_crow w l :
   c_state (rehash_failed w l) = c_state w /\ c_run (rehash_failed w l) = c_run w /\
